@@ -269,7 +269,7 @@ func genTTL() *rapid.Generator[ttlCase] {
 				gaps = []int{0, 0, 10, 40}
 			}
 			tc.Arrivals = append(tc.Arrivals, ttlArr{
-				Prio:  rapid.SampledFrom([]string{"high", "mid", "low", ""}).Draw(t, "prio"),
+				Prio:  rapid.SampledFrom([]string{"High", "mid", "low", ""}).Draw(t, "prio"),
 				GapMs: rapid.SampledFrom(gaps).Draw(t, "gap")})
 		}
 		if mid {
@@ -283,7 +283,7 @@ func genTTL() *rapid.Generator[ttlCase] {
 				if i == 0 {
 					gap = rapid.SampledFrom([]int{1300, 1600}).Draw(t, "pause")
 				}
-				tc.Arrivals = append(tc.Arrivals, ttlArr{Prio: rapid.SampledFrom([]string{"high", "low", ""}).Draw(t, "prio2"), GapMs: gap})
+				tc.Arrivals = append(tc.Arrivals, ttlArr{Prio: rapid.SampledFrom([]string{"High", "low", ""}).Draw(t, "prio2"), GapMs: gap})
 			}
 		}
 		return tc
